@@ -128,12 +128,15 @@ def schedule_rules(R, lib):
                # periods in the upper half of 16 bits: the doubled retry period (40000 -> 80000, capped at 43200) does not fit 16 bits
                # before it is capped
                dict(name='wide', sync=43200, initial=40000, timeout=1000, steps=(1000, 15000000, 44000000), start=1000, coarse=True),
+               # loop() called rarely, at gaps that are whole multiples of 65536 ms: a waiting time kept in 16 bits reads 0 at every
+               # call, so a request that is never answered is never given up (the timeout is an `unsigned long` comparison)
+               dict(name='sparse', sync=300, initial=100, timeout=1000, steps=(600, 65536, 131072), start=3000, coarse=True),
                # the reference clock answers with the epoch itself (0 is a reading like any other) and with a time before it
                dict(name='zero', sync=8, initial=1, timeout=1000, steps=(600, 9000), start=5000, value=lambda t_: 0),
                dict(name='negative', sync=8, initial=1, timeout=1000, steps=(600, 9000), start=5000, value=lambda t_: -86400 + t_ // 1000)]
     kinds = ('distinct', 'same', 'no-backup', 'absent')
     depth = {'short': 9 if thorough else 7, 'backoff': 11 if thorough else 9, 'cap': 9 if thorough else 7, 'wrap32': 8 if thorough else 6, 'long': 8 if thorough else 6,
-             'wide': 8 if thorough else 7,
+             'wide': 8 if thorough else 7, 'sparse': 7 if thorough else 6,
              'zero': 7 if thorough else 5, 'negative': 7 if thorough else 5}
     counts = {k: 0 for k in ('S1', 'S2', 'S3', 'S4', 'S5', 'S6', 'S7')}
     first = {}
